@@ -3,7 +3,36 @@
 open Model
 open Util
 
+(* The extracted list functions are not tail recursive: a value of 1 MiB needs a deeper stack
+   than the default 8 MiB.  The driver restarts itself once under "ulimit -s unlimited" (Stdlib
+   only: no Unix in the build line). *)
+let () =
+  if (try Sys.getenv "JC_STR_BIGSTACK" with Not_found -> "") = "" then begin
+    let args = String.concat " " (List.map Filename.quote (List.tl (Array.to_list Sys.argv))) in
+    let cmd = Printf.sprintf
+        "JC_STR_BIGSTACK=1; export JC_STR_BIGSTACK; ulimit -s unlimited 2>/dev/null || ulimit -s 4000000 2>/dev/null; OCAMLRUNPARAM=s=64M; export OCAMLRUNPARAM; exec %s %s"
+        (Filename.quote Sys.executable_name) args in
+    exit (Sys.command cmd)
+  end
+
 let always : z -> z -> bool = fun _ _ -> true
+
+(* source bytes: hex, or "@<k>x<n>" = the n bytes b(i) = (7 i + 13 k + 5 (i / 256)) mod 251 *)
+let bytes_of_src h : z list =
+  if String.length h > 0 && h.[0] = '@' then
+    Scanf.sscanf h "@%dx%d" (fun k n -> List.init n (fun i -> z_of_int ((7 * i + 13 * k + 5 * (i / 256)) mod 251)))
+  else bytes_of_hex h
+
+(* values longer than 256 bytes are printed as #<len>:<fnv1a-32>:<first 16>:<last 16> *)
+let show_ints (a : int array) =
+  let n = Array.length a in
+  if n = 0 then "-" else
+  if n <= 256 then String.concat "" (Array.to_list (Array.map (Printf.sprintf "%02x") a)) else begin
+    let h = ref 0x811c9dc5 in
+    Array.iter (fun b -> h := ((!h lxor b) * 16777619) land 0xFFFFFFFF) a;
+    let hex lo hi = String.concat "" (List.init (hi - lo) (fun i -> Printf.sprintf "%02x" a.(lo + i))) in
+    Printf.sprintf "#%d:%08x:%s:%s" n !h (hex 0 16) (hex (n - 16) n)
+  end
 
 (* "<hex>[,<len>][!k]" *)
 let parse_arg a =
@@ -11,8 +40,8 @@ let parse_arg a =
     | Some i -> String.sub a 0 i, Some (int_of_string (String.sub a (i+1) (String.length a - i - 1)))
     | None -> a, None in
   match String.index_opt a ',' with
-  | Some i -> bytes_of_hex (String.sub a 0 i), Some (z_of_string (String.sub a (i+1) (String.length a - i - 1))), fault
-  | None -> bytes_of_hex a, None, fault
+  | Some i -> bytes_of_src (String.sub a 0 i), Some (z_of_string (String.sub a (i+1) (String.length a - i - 1))), fault
+  | None -> bytes_of_src a, None, fault
 
 (* the allocator of one call: request number reqs0 + k fails *)
 let alloc_for reqs0 fault : z -> z -> bool =
@@ -20,14 +49,21 @@ let alloc_for reqs0 fault : z -> z -> bool =
   | None -> always
   | Some k -> let bad = Z.add reqs0 (z_of_int k) in fun idx _ -> not (idx = bad)
 
-let rec take n l = if n <= 0 then [] else match l with [] -> [] | x :: t -> x :: take (n-1) t
-let rec before_nul = function [] -> [] | x :: t -> if x = Z0 then [] else x :: before_nul t
+let take n l =
+  let rec go n l acc = if n <= 0 then List.rev acc else match l with [] -> List.rev acc | x :: t -> go (n-1) t (x :: acc) in
+  go n l []
+let before_nul l =
+  let rec go l acc = match l with [] -> List.rev acc | x :: t -> if x = Z0 then List.rev acc else go t (x :: acc) in
+  go l []
 
 exception Ub
 
 let cells_hex cs =
   if cs = [] then "-" else
-  String.concat "" (List.map (function Some b -> Printf.sprintf "%02x" (int_of_z b) | None -> "??") cs)
+  if List.for_all (function Some _ -> true | None -> false) cs then
+    show_ints (Array.of_list (List.rev (List.rev_map (function Some b -> int_of_z b | None -> 0) cs)))
+  else String.concat "" (List.map (function Some b -> Printf.sprintf "%02x" (int_of_z b) | None -> "??") cs)
+let bytes_show bs = show_ints (Array.of_list (List.rev (List.rev_map int_of_z bs)))
 
 let fresh bs =
   match new_string_len always bs (z_of_int (List.length bs)) with
@@ -37,24 +73,34 @@ let eqc s bs =
   match str_equal s (fresh bs) with
   | Some true -> "1" | Some false -> "0" | None -> raise Ub
 
+(* Above 256 KiB the model side prints the wildcard "?" for the equality, copy and
+   serialisation tokens (the extracted functions need seconds per MiB); contents, length,
+   NUL, storage and live-block delta are still compared, and the direct oracle checks all
+   tokens of the implementation at every size. *)
+let huge = 262144
+
 let observe s ret dlive ns expected =
   let len = get_string_len s in
   let hex = match get_string s with Some cs -> cells_hex cs | None -> raise Ub in
   let nul = match get_nul s with
     | Some (Some b) -> if b = Z0 then "1" else "0" | Some None -> "?" | None -> raise Ub in
   let n = List.length expected in
-  let a = eqc s expected in
-  let b = if n > 0 then
-      eqc s (List.mapi (fun i x -> if i = n - 1 then z_of_int ((int_of_z x) lxor 1) else x) expected)
-    else "-" in
-  let c = if List.mem Z0 expected then eqc s (before_nul expected) else "-" in
-  let d = eqc s (expected @ [Z0]) in
-  let copy = match str_copy always s with
-    | NOk c -> (match get_string c with Some cs -> cells_hex cs | None -> raise Ub)
-    | NNull _ -> "NULL" | NUB -> raise Ub in
-  let ser = match str_ser ns s with Some bs -> hex_of_bytes bs | None -> raise Ub in
-  Printf.sprintf "%s %s %s %s %s %s E%s%s%s%s C%s J%s" ret (string_of_z len) hex nul
-    (if is_sep s then "S" else "I") (string_of_z dlive) a b c d copy ser
+  let tail =
+    if n > huge then "? ? ?" else begin
+      let a = eqc s expected in
+      let b = match List.rev expected with
+        | x :: t -> eqc s (List.rev (z_of_int ((int_of_z x) lxor 1) :: t))
+        | [] -> "-" in
+      let c = if List.mem Z0 expected then eqc s (before_nul expected) else "-" in
+      let d = eqc s (List.rev (Z0 :: List.rev expected)) in
+      let copy = match str_copy always s with
+        | NOk c -> (match get_string c with Some cs -> cells_hex cs | None -> raise Ub)
+        | NNull _ -> "NULL" | NUB -> raise Ub in
+      let ser = match str_ser ns s with Some bs -> bytes_show bs | None -> raise Ub in
+      Printf.sprintf "E%s%s%s%s C%s J%s" a b c d copy ser
+    end in
+  Printf.sprintf "%s %s %s %s %s %s %s" ret (string_of_z len) hex nul
+    (if is_sep s then "S" else "I") (string_of_z dlive) tail
 
 let run line =
   let toks = split_on ' ' line in
@@ -68,7 +114,7 @@ let run line =
     let al = alloc_for Z0 fault in
     let r, expected = match create.[0], len with
       | 'L', Some l -> new_string_len al bs l, take (int_of_z l) bs
-      | 'Z', _ -> let src = bs @ [Z0] in new_string al src, before_nul src
+      | 'Z', _ -> let src = List.rev (Z0 :: List.rev bs) in new_string al src, before_nul src
       | _ -> failwith "str create" in
     (match r with
      | NUB -> emit "UB"
@@ -82,7 +128,7 @@ let run line =
            let op, fault = match tok.[0] with
              | 'l' -> (match parse_arg body with
                        | bs, Some l, f -> OpSetLen (bs, l), f | _ -> failwith "str step l")
-             | 'z' -> let bs, _, f = parse_arg body in OpSet (bs @ [Z0]), f
+             | 'z' -> let bs, _, f = parse_arg body in OpSet (List.rev (Z0 :: List.rev bs)), f
              | 'o' | 's' | 'O' | 'S' ->
                (* own-buffer source: o<off>,<len>[!k]  /  s<off>[!k] *)
                let body, f = match String.index_opt body '!' with
